@@ -51,6 +51,14 @@ def separation_margin(expr, kernel_names):
     """
     if _max_line_expr(expr, kernel_names):
         return 0, "M"
+    for kn in kernel_names:
+        if U(expr) == "%s[-1].line_number" % kn:
+            return 0, "M (last line; the kernel is in file order)"
+        if isinstance(expr, ast.BinOp) and isinstance(expr.op, ast.Add) and {U(expr.left), U(expr.right)} == {
+                "%s[0].line_number" % kn, "len(%s)" % kn}:
+            # first + count = M + 1 only when the line numbers are contiguous; blank lines are not parsed and --lines may
+            # name disjoint ranges, so with g gaps the value is M + 1 - g
+            return -999, "first line number + number of lines (= M + 1 - <number of gaps in the numbering>)"
     if isinstance(expr, ast.BinOp) and isinstance(expr.op, (ast.Add, ast.Sub)):
         for a, b in ((expr.left, expr.right), (expr.right, expr.left)):
             c = C.const_num(b)
@@ -314,11 +322,14 @@ def run(ctx):
     if k >= 1:
         ctx.node_ok("R2", f, offdef, "offset = %s guarantees offset >= M + %s" % (shape, k))
     else:
-        ctx.node_bad("R2", f, offdef,
-                     "offset = %s only guarantees offset >= M%+d where M is the kernel's largest "
-                     "line number: for a kernel whose last line number is >= the constant, the copy "
-                     "test `node >= offset` is true for an ORIGINAL node, which is then mapped to "
-                     "line M - offset" % (shape, k))
+        tail = ("for a kernel whose last line number is >= the offset, the copy test `node >= offset` is true for an ORIGINAL "
+                "node, which is then mapped to line M - offset")
+        if k <= -999:
+            ctx.node_bad("R2", f, offdef, "offset = %s guarantees no margin above M, the kernel's largest line number (blank lines "
+                         "are skipped by the parser, --lines can name disjoint ranges): %s" % (shape, tail))
+        else:
+            ctx.node_bad("R2", f, offdef, "offset = %s only guarantees offset >= M%+d where M is the kernel's largest line number: %s"
+                         % (shape, k, tail))
 
     # ---------------------------------------------------------------- R3 roots
     ctx.rule("R3", "every kernel line is a search root (sequential branch)")
